@@ -11,7 +11,7 @@ CONFIG = {
         TRANSLATOR + " (RulesGen.v: the writer's and the reader's integer-rule switches, the list-rule arms both use per integer format, the array-rules condition, the id62 pattern uses)",
         CORR, HARNESS,
         "modelled, not verified: protobuf option plumbing (proto.SetExtension / GetExtension, HasOptionalKeyword, source locations) is abstracted as the record [fout]; the harness dumps it from the real linked descriptors and refuses (COther / XOther / LOtherArm / None) whatever the abstraction cannot express",
-        "second clause (the printed .proto text reflects to the same schema) is decided by the direct oracle only: print with the real printer, parse with the protosrc compiler the toolchain uses for generated files, reflect, compare with the in-memory result; the printer/parser pair itself is C05's subject",
+        "second clause (the printed .proto text reflects to the same schema): proved conditionally (C04_text_clause: reflection depends on a field only through c04_proj; hypothesis = print + parse preserves that view, checked per generated object by the C04Text stream) and decided by the direct oracle: print with the real printer, parse with the protosrc compiler the toolchain uses for generated files, reflect, compare with the in-memory result; the printer/parser pair itself is C05's subject",
     ],
     "assumptions": [
         "model/RulesWrite.v and model/RulesRead.v are hand-written models of fields.go buildField/buildProperty and of schema_from_proto.go messageProperties/buildSchemaProperty/buildScalarType/buildFromStringProto/wktSchema/buildEnumFieldSchema/buildMessageFieldSchema; both are tied to the code on every run: write_object against the annotations the real compiler emits, read_object (on those observed annotations) against the real reflector's ToJ5Root",
@@ -20,14 +20,14 @@ CONFIG = {
         "three quarters of the compile units go through j5s text, one quarter through the source AST (lib/verifshim/scha: negative integer bounds, present-but-empty rules messages)",
     ],
     "mult_search": 3,
-    "refuted": ["C04_string_format_refuted", "C04_array_any_types_refuted", "C04_key_custom_refuted", "C04_key_informal_refuted", "C04_key_listrules_refuted", "C04_array_key_refuted",
+    "refuted": ["C04_string_format_refuted", "C04_array_any_types_refuted", "C04_array_key_custom_refuted", "C04_array_key_informal_refuted", "C04_key_custom_listrules_refuted", "C04_key_listrules_refuted", "C04_array_key_refuted",
                 "C04_array_date_rules_refuted", "C04_array_flatten_refuted", "C04_map_item_listrules_refuted", "C04_enum_unspecified_refuted",
                 "C04_full_refuted"],
-    "partial": ["C04_partial", "C04_property", "C04_enum"],
+    "partial": ["C04_partial", "C04_property", "C04_exact", "C04_property_exact", "C04_text_clause", "C04_enum"],
 }
 
 MANIFEST = {
-    "text": "Theorem (for every object whose properties lie in the fragment rt_ok, all rule values: absent, zero, boundary, both booleans): reading back the annotations the modelled writer emits yields exactly the declared properties in normal form — names, order, proto paths [1..n], required / explicitly optional, every field type with format, flatten, key format uuid / id62 and entity key (primary, foreign, tenant), descriptions, validation rules (integer bounds with inclusivity, string, bytes, bool, enum in / not-in as names, array counts + uniqueness, date / decimal bounds) and list rules per type. Proved per field type as writer/reader inverse lemmas and lifted over singular / array / map properties and objects (oneof roots share the property code); enums as root schemas: description, prefix, option names, numbers and descriptions read back as declared (C04_enum). Writer and reader models are tied to the code by regenerated switch tables and by differential correspondence against the real compiler and the real reflector; the direct oracle compares declared and reflected schema_j5pb.ObjectProperty values and the schema reflected from the printed .proto text.",
-    "note": "Partial: outside the fragment the full statement is refuted on the model and on the real code (known findings): string format (never written), key:custom and key:informal formats, keys without format carrying list rules, array items whose annotation lives in (j5.ext.v1.field) (date/decimal rules, flatten, unformatted keys), list rules declared on map item schemas. The second clause (printed text) is checked by the direct oracle, not proved (one known finding: options on map values cannot be printed). Fourteen writer/reader asymmetries found by this check were repaired in /repo (KNOWN_FINDINGS.txt fixed: lines). All theorems closed under the global context.",
+    "text": "Theorem (for every object whose properties lie in the fragment rt_ok, all rule values: absent, zero, boundary, both booleans): reading back the annotations the modelled writer emits yields exactly the declared properties in normal form — names, order, proto paths [1..n], required / explicitly optional, every field type with format, flatten, key format (informal / custom / uuid / id62) and entity key (primary, foreign, tenant), descriptions, validation rules (integer bounds with inclusivity, string, bytes, bool, enum in / not-in as names, array counts + uniqueness, date / decimal bounds) and list rules per type. Proved per field type as writer/reader inverse lemmas and lifted over singular / array / map properties and objects (oneof roots share the property code); enums as root schemas: description, prefix, option names, numbers and descriptions read back as declared (C04_enum). Writer and reader models are tied to the code by regenerated switch tables and by differential correspondence against the real compiler and the real reflector; the direct oracle compares declared and reflected schema_j5pb.ObjectProperty values and the schema reflected from the printed .proto text.",
+    "note": "Partial, with an exact boundary (C04_exact: a compiled object reads back as declared iff all its properties lie in rt_ok): outside the fragment the full statement is refuted on the model and on the real code (known findings): string format (never written), key:custom / key:informal inside arrays, custom or unformatted keys carrying list rules, array items whose annotation lives in (j5.ext.v1.field) (date/decimal rules, flatten, unformatted keys), list rules declared on map item schemas. The second clause (printed text) is proved only under the hypothesis that print + parse preserves the reader's view of each field (C05's subject; checked per object), plus the direct oracle (one known finding: options on map values cannot be printed). Sixteen writer/reader asymmetries found by this check were repaired in /repo (KNOWN_FINDINGS.txt fixed: lines). All theorems closed under the global context.",
     "technique": "Rocq/Coq proof (writer/reader inverse lemmas by case analysis, list induction for objects) over Gallina models of the annotation writer and the schema reader + regenerated switch tables + in-Coq differential correspondence against the real compiler and reflector",
 }
